@@ -244,7 +244,7 @@ func (r *c13Run) shutdown(bound time.Duration) error {
 		}
 	}
 	dl := time.Now().Add(bound)
-	for r.svc.VerifActiveConnections() != 0 && time.Now().Before(dl) {
+	for activeConns(r.svc) != 0 && time.Now().Before(dl) {
 		time.Sleep(100 * time.Microsecond)
 	}
 	r.svc.Shutdown()
@@ -278,7 +278,13 @@ func execC13(c C13Case, bound time.Duration) (facts map[string]int, err error) {
 		case "register", "dup":
 			_, known := r.descs[op.Name]
 			known = known || op.Name == "org.varlink.service"
-			rerr := svc.RegisterInterface(&ScriptIface{Name: op.Name, Desc: op.Desc, Log: &InvLog{}})
+			si := &ScriptIface{Name: op.Name, Desc: op.Desc, Log: &InvLog{}}
+			rerr := svc.RegisterInterface(si)
+			if i%2 == 0 {
+				// the application changes its text after the registration call has returned; what was registered stays
+				si.EditDescription("# edited after registration\n" + op.Desc + "x")
+				facts["description-edited-after-registration"]++
+			}
 			switch {
 			case known:
 				facts["refused-duplicate"]++
@@ -615,7 +621,7 @@ func checkC13Res(c C13ResCase, st *Stats) error {
 	}()
 	res.Close()
 	dl := time.Now().Add(bound)
-	for svc.VerifActiveConnections() != 0 && time.Now().Before(dl) {
+	for activeConns(svc) != 0 && time.Now().Before(dl) {
 		time.Sleep(100 * time.Microsecond)
 	}
 	svc.Shutdown()
